@@ -36,7 +36,7 @@ ASSUMPTIONS = [
 ]
 FLOORS = {"programs:op-on-id-held-by-other": 0.05, "programs:drop-then-lookup": 0.1, "programs:failing-replace-registered": 0.08}
 
-LEAF_CLASSES = ["LeafA", "LeafB", "SubLeafA", "Falsy"]
+LEAF_CLASSES = ["LeafA", "LeafB", "SubLeafA", "Falsy", "SlotLeaf"]
 ORIGINS = [["no"], ["no"], ["code", 0, 0, 1], ["gen", 1], ["multi", [["code", 0, 0, 1], ["gen", 1]]]]
 
 
@@ -146,10 +146,14 @@ class Machine:
                 return
             kids = [self.pool[s % len(self.pool)] for s in o[2]]
             org = og.build_origin(ORIGINS[o[4] % len(ORIGINS)], self.sources)
-            if o[1] % 2 == 0:
+            if o[1] % 4 == 0:
                 n = M.cls("Mixed")(child=kids[0] if len(kids) % 2 else None, items=tuple(kids), v=o[3] % 3, origin=org)
-            else:
+            elif o[1] % 4 == 1:
                 n = M.cls("Uni")(one=kids[0], opt=kids[-1] if len(kids) > 1 else None, origin=org)
+            elif o[1] % 4 == 2:  # multiple inheritance: the child field comes from the second base
+                n = M.cls("Both")(kid=kids[0], ta=o[3] % 3, tb="t", origin=org)
+            else:
+                n = M.cls("TagA")(ta=o[3] % 3, origin=org)
             self.pool.append(n)
             self.note_created([n])
             self.check_determinism(n, sigs_before)
@@ -285,6 +289,8 @@ class Machine:
         names = {f.name for f in dataclasses.fields(x)}
         if "v" in names and c % 3 != 2:
             return {"v": (x.v + 1 + c) % 3 if isinstance(x.v, int) else 0}
+        if "ta" in names and c % 3 != 2:
+            return {"ta": (x.ta + 1 + c) % 3}
         if c % 3 == 2 or "v" not in names:
             return {"origin": og.build_origin(ORIGINS[2 + c % 3], self.sources)}
         return {}
